@@ -126,4 +126,22 @@ META = {
          'are numeric comparisons against an independent recomputation (the formulas themselves are proved in C13: mixture density, '
          'weighted variance, weighted quantile); "exactly n particles, all simulated draws" rests on the rejection round stopping only '
          'with n acceptable draws (C01 estimator theorem on a finite domain + correspondence); scipy densities/samplers are oracles.'),
+ 'C05': dict(
+    text='Theorems (Properties/C05.v, closed under the global context) over the model of OutputPool + PoolLoader + ComputationContext '
+         '(coq/Store/Pool.v) on the graph calculus: supplying any nodes with values equal to their fresh values leaves the meaning of '
+         'EVERY node unchanged (so results with a reused pool equal pool-free results, also after downstream nodes were replaced); a '
+         'stored node the pool holds for the batch is never in the call log (for every executor-cache state); when the stored set is '
+         'prefix closed for the execution order the stochastic operations that still run form a prefix of the full stochastic '
+         'sequence, i.e. each gets the single batch generator in the state it has without the pool (decidable side condition, with '
+         'the MA2-like store sets as positive and the two-independent-simulators case as negative example); the callback never '
+         'overwrites a held batch, afterwards holds the consumed batch, and touches only stores present in the result; a context with '
+         'another batch_size or seed is refused, exactly then. Correspondence on every run: (a) symbolic - random graphs with '
+         'recording operations, 2-3 consecutive BatchHandler runs over one persistent pool (fill, rerun, more batches, remove_store, '
+         'replacing a downstream node): per-batch results, call logs and pool content equal the model; results equal the pool-free '
+         'meaning; the call multiset equals the operations needed given the held values; (b) numeric - seeded Rejection with '
+         'OutputPool and on-disk ArrayPool vs the pool-free run bit for bit (fill, reuse, larger budget, replaced summary, save + '
+         'reopen), operation call counters, pool content vs fresh recomputation, refusal of another batch_size/seed.',
+    note=COMMON_NOTE + 'Partial: symbolic values do not see the random stream, so stream transparency is the combinatorial theorem '
+         'C05_generator_positions plus the numeric bit-identity runs; the composition "pool-held values of a seeded run equal the fresh '
+         'values" is by C02 (purity in (seed, batch index)) and is validated numerically; the on-disk part relies on C06.'),
 }
